@@ -110,7 +110,24 @@ var dslWords = []string{"JSIGHT", "0.3", "INFO", "Title", "Version", "Descriptio
 
 func fuzzCase(seed, k int, corpus []string, dir string) (path string, text []byte, desc string) {
 	r := newRng(uint64(seed)*1000003 + uint64(k))
-	switch k % 6 {
+	switch k % 7 {
+	case 6: // long lines made of runs of one byte (limits of the error quote, UTF-8 boundaries), with or without a final line break
+		var sb strings.Builder
+		if r.intn(3) > 0 {
+			sb.WriteString("JSIGHT 0.3\n")
+		}
+		for i, n := 0, 1+r.intn(3); i < n; i++ {
+			if r.intn(2) == 0 {
+				sb.WriteString(dslWords[r.intn(len(dslWords))] + " ")
+			}
+			c := []byte{0x80, 0xBF, 0xA0, 0xC3, 0xE2, 0xF0, 0xFF, 'a', ' ', '/', '#', '"', '{', 0x00}[r.intn(14)]
+			ln := []int{150, 190, 196, 197, 198, 199, 200, 201, 202, 203, 260, 420}[r.intn(12)]
+			sb.WriteString(strings.Repeat(string([]byte{c}), ln))
+			if i < n-1 || r.intn(2) == 0 {
+				sb.WriteString([]string{"\n", "\r\n", "\r"}[r.intn(3)])
+			}
+		}
+		return "root.jst", []byte(sb.String()), "long runs"
 	case 0: // random bytes
 		n := r.intn(200)
 		b := make([]byte, n)
@@ -130,7 +147,7 @@ func fuzzCase(seed, k int, corpus []string, dir string) (path string, text []byt
 			return "root.jst", []byte{}, "empty"
 		}
 		b, _ := os.ReadFile(corpus[r.intn(len(corpus))])
-		if k%6 == 3 {
+		if k%7 == 3 {
 			o, _ := os.ReadFile(corpus[r.intn(len(corpus))])
 			b = append(b[:r.intn(len(b)+1)], o[r.intn(len(o)+1):]...)
 		}
@@ -215,11 +232,11 @@ func fuzzBuild(args []string) *Result {
 		} else if dur > 2*time.Second+time.Duration(n)*50*time.Microsecond {
 			res.mismatch("c01:slow", fmt.Sprintf("fuzz case %d (%s, %d bytes) took %v", k, desc, n, dur), map[string]any{"kind": "c01-fuzz", "seed": seed, "case": k, "text": string(text)})
 		}
-		if out != "error" || k%6 >= 4 {
+		if out != "error" || k%7 >= 4 {
 			res.Nontrivial++
 		}
 		if len(res.Samples) < 3 && k%997 == 3 {
-			res.sample(map[string]any{"case": k, "kind": desc, "outcome": out, "text": string(text)})
+			res.sample(map[string]any{"case": k, "kind": desc, "outcome": out, "text": clip(string(text), 300)})
 		}
 	}
 	return res
